@@ -101,12 +101,12 @@ def validate(ctx, plan, name, max_rounds=4):
     return last
 
 
-def big_history(n):
+def big_history(n, idfmt="b%04d"):
     """> 1000 signatures so that the real rebuild commits in chunks; then rebuild."""
     h = []
     for b in range(0, n, 400):
         h.append({"op": {"op": "addbatch", "sigs": [
-            {"id": "b%04d" % i, "topo": ["tA", "tB", "tC"][i % 3], "fuzzy": ["", "fX"][i % 2],
+            {"id": idfmt % i, "topo": ["tA", "tB", "tC"][i % 3], "fuzzy": ["", "fX"][i % 2],
              "ent": sl.E["2.5"] + (i % 7), "tol": [0, sl.T050][i % 2], "ver": 0} for i in range(b, min(n, b + 400))]}})
     h.append({"op": {"op": "add", "sig": {"id": "i1", "topo": "tA", "fuzzy": "fX", "ent": sl.E["2.5"], "tol": 0, "ver": 0}}})
     h.append({"op": {"op": "rebuild"}})
@@ -157,9 +157,24 @@ def check(ctx):
     trace, rep = validate(ctx, plan_base(hs, 0, ctx.seed), "crash")
     ctx.cov["exhaustive"] = True
     # one history whose rebuild really chunks (1000-record commits): sampled crash points
-    big = plan_base([big_history(2300)], 60 if thorough else 16, ctx.seed)
-    big["ids"] = ["i1", "b0000", "b1001", "b2299"]
-    validate(ctx, big, "bigrebuild")
+    if thorough:     # (the quick tier uses the unpadded-ID history below instead: it chunks as well)
+        big = plan_base([big_history(2300)], 60, ctx.seed)
+        big["ids"] = ["i1", "b0000", "b1001", "b2299"]
+        validate(ctx, big, "bigrebuild")
+    # the same with UNPADDED numeric IDs (as `sfw index` assigns them), sized so that the record at the rebuild's
+    # chunk boundary (the 1000th key in byte order) is a proper prefix of other IDs ("g90" / "g900".."g909"):
+    # whatever a rebuild remembers about where it stopped must be a key, not a prefix
+    def boundary_is_prefix(n, b=999):
+        ids = sorted("g%d" % i for i in range(n))
+        return b < n and any(x != ids[b] and x.startswith(ids[b]) for x in ids)
+    cand = [n for n in range(1100, 2300) if boundary_is_prefix(n)]
+    npre = cand[ctx.seed % min(len(cand), 40)]
+    pre = plan_base([big_history(npre, "g%d")], 40 if thorough else 8, ctx.seed)
+    pre["dense_last_op"] = True      # every FS operation of the rebuild itself
+    ids_sorted = sorted("g%d" % i for i in range(npre))
+    pre["ids"] = ["i1", ids_sorted[999], ids_sorted[999] + "0", ids_sorted[998], "g%d" % (npre - 1)]
+    validate(ctx, pre, "prefixids")
+    ctx.notes["prefix_id_history"] = {"signatures": npre, "boundary_key": ids_sorted[999]}
     # one history whose single batches exceed the store's internal batch-size limit (10 MiB): records padded
     # to 48 KiB, one batch of 260 (12.5 MiB) after a small one; sampled crash points.  "A mutation is applied
     # completely or not at all" has no size bound.
